@@ -29,7 +29,7 @@ BASE_PROFILE = {
               'add_capacity': 1, 'adjust_budget': 0.7, 'rewire': 0.3, 'offset_cycle': 0.7},
     'p_maintainer': 0.6, 'p_ct_script': 0.2, 'p_value_cb': 0.4, 'p_collect': 0.5,
     'values': [0, 0.5, 1, 1.5, 2.25, 3], 'qualities': [1, 0.5, 0.75, 0.25],
-    'p_same_instant': 0.3,
+    'p_same_instant': 0.3, 'p_initial_value': 0.0, 'p_poke': 0.0, 'p_trace': 0.0,
     'max_events': 20000,
 }
 
@@ -81,9 +81,15 @@ def profile(name):
         p['p_value_cb'] = 0.9
         p['p_maintainer'] = 0.9
         p['p_batch_source'] = 0.25
+        p['p_initial_value'] = 0.4
+        p['p_poke'] = 0.5
+        p['ops_w'].update({'work_order': 4})
     elif name == 'records':       # C15
         p['p_maintainer'] = 0.95
         p['p_resources'] = 0.8
+        p['p_trace'] = 0.34
+        p['p_batch_source'] = 0.25
+        p['ops_w'].update({'work_order': 4, 'fail': 3})
         p['stage_w'].update({'buffer': 5, 'processor': 6})
     else:
         raise ValueError(name)
@@ -160,7 +166,10 @@ class Gen:
         return req
 
     def mk_handler(self, ups):
-        return self.add({'id': self.nid('H'), 'kind': 'handler', 'up': ups, 'ct': self.rng.choice(self.p['cts'])})
+        it = {'id': self.nid('H'), 'kind': 'handler', 'up': ups, 'ct': self.rng.choice(self.p['cts'])}
+        if self.rng.random() < self.p['p_initial_value']:
+            it['value'] = self.rng.choice([1, 2.5, -3, 10])
+        return self.add(it)
 
     def mk_processor(self, ups):
         rng = self.rng
@@ -313,8 +322,10 @@ class Gen:
                           'collect': rng.random() < p['p_collect']})
         maint = None
         if rng.random() < p['p_maintainer']:
-            maint = self.add({'id': self.nid('M'), 'kind': 'maintainer',
-                              'cap': rng.choice([None, 1, 1, 2, 0.5, 3])})
+            mi = {'id': self.nid('M'), 'kind': 'maintainer', 'cap': rng.choice([None, 1, 1, 2, 0.5, 3])}
+            if rng.random() < p['p_initial_value']:
+                mi['value'] = rng.choice([5, 100, -2.5])
+            maint = self.add(mi)
         horizon = float(rng.randint(*p['horizon']))
         segs = [horizon]
         if rng.random() < p['p_split']:
@@ -325,6 +336,11 @@ class Gen:
         spec = {'resources': self.resources, 'items': self.items, 'horizon': segs,
                 'tie': 'prng', 'seed': seed, 'max_events': p['max_events']}
         spec['script'] = self.script(horizon, maint)
+        if rng.random() < p['p_poke']:
+            cands = [i['id'] for i in self.items if i['kind'] not in ('group',)]
+            spec['poke'] = rng.sample(cands, min(len(cands), rng.choice([1, 2, 3])))
+        if rng.random() < p['p_trace']:
+            spec['trace'] = [rng.random() < 0.7 for _ in segs]
         return spec
 
     def script(self, horizon, maint):
@@ -439,6 +455,9 @@ def eval_pred(pred, part):
     raise ValueError(t)
 
 
+GATE_LOG = None      # set by the builder: list of (gate name, part, result) evaluations
+
+
 class Pred:
     """Callable gate predicate (picklable, deep-copyable)."""
 
@@ -446,4 +465,9 @@ class Pred:
         self.pred = pred
 
     def __call__(self, gate, part):
-        return eval_pred(self.pred, part)
+        r = eval_pred(self.pred, part)
+        if GATE_LOG is not None:
+            from . import instrument
+            if not instrument.PROBING:
+                GATE_LOG.append((gate.name, part, r))
+        return r
